@@ -118,6 +118,7 @@ type env struct {
 	doneSeen  int32 // the channel returned by Shutdown has been observed closed
 	afterDone int32 // tasks that began to run after that
 	cstart    int32 // tasks that began to run with an already cancelled pool context
+	runAtDone int32 // tasks inside Run at the instant the channel returned by Shutdown was observed closed
 	relAll    chan struct{}
 	relOnce   sync.Once
 	markOrder []int // ids of tasks run in marked mode, in the order ShutdownNow returned them
@@ -360,6 +361,10 @@ func waitDone(e *env, done <-chan struct{}) string {
 	for {
 		select {
 		case <-done:
+			// graceful closure happens after the last worker left: no task may be inside Run any more
+			if n := atomic.LoadInt32(&e.running); n > 0 {
+				atomic.StoreInt32(&e.runAtDone, n)
+			}
 			atomic.StoreInt32(&e.doneSeen, 1)
 			return "closed"
 		case <-tick.C:
@@ -378,6 +383,16 @@ func waitDone(e *env, done <-chan struct{}) string {
 			return "hang"
 		}
 	}
+}
+
+// okDone: the channel of a Shutdown that returned a nil error.  A nil channel can never be observed
+// closed (a receive blocks for ever), i.e. it is a done channel that never closes: it is replaced by such
+// a channel so that the scenario waits on it and reports the hang instead of treating the call as failed.
+func okDone(d <-chan struct{}) <-chan struct{} {
+	if d == nil {
+		return make(chan struct{})
+	}
+	return d
 }
 
 func cfgStr(hs pool.VerifPoolSnap) string {
@@ -418,7 +433,7 @@ func (sc *seqCase) op(line string, st *stats) string {
 	w := strings.Fields(line)
 	e := sc.e
 	gap := 300 * time.Microsecond
-	res := ""
+	res, extra := "", ""
 	switch w[0] {
 	case "sub":
 		beh := w[1]
@@ -440,7 +455,7 @@ func (sc *seqCase) op(line string, st *stats) string {
 		d, err := e.p.Shutdown()
 		res = pool.VerifErrKind(err)
 		if err == nil {
-			sc.done = d
+			sc.done = okDone(d)
 		}
 	case "shutdownnow":
 		ts, err := e.p.ShutdownNow()
@@ -501,6 +516,7 @@ func (sc *seqCase) op(line string, st *stats) string {
 			if res == "hang" {
 				st.Hangs["seq"]++
 			}
+			extra = fmt.Sprintf(" runatdone=%d", atomic.LoadInt32(&e.runAtDone))
 		}
 	case "states":
 		ctx, cancel := context.WithCancel(context.Background())
@@ -528,7 +544,7 @@ func (sc *seqCase) op(line string, st *stats) string {
 	default:
 		return "bad-op"
 	}
-	return res + " " + stable(e, gap)
+	return res + " " + stable(e, gap) + extra
 }
 
 // ---------------------------------------------------------------------------------------------
@@ -573,7 +589,7 @@ func concCase(c conf, st *stats) string {
 		ret := e.next()
 		if err == nil {
 			dmu.Lock()
-			done = d
+			done = okDone(d)
 			dmu.Unlock()
 			atomic.AddInt32(&shutOK, 1)
 		}
@@ -767,7 +783,8 @@ func concCase(c conf, st *stats) string {
 	if int(atomic.LoadInt32(&gomax)) > st.MaxGoCnt {
 		st.MaxGoCnt = int(atomic.LoadInt32(&gomax))
 	}
-	fmt.Fprintf(&b, " dseq=%d done=%s cstart=%d %s", dseq, doneRes, atomic.LoadInt32(&e.cstart), fin)
+	fmt.Fprintf(&b, " dseq=%d done=%s cstart=%d runatdone=%d %s", dseq, doneRes, atomic.LoadInt32(&e.cstart),
+		atomic.LoadInt32(&e.runAtDone), fin)
 	return b.String()
 }
 
@@ -1069,11 +1086,16 @@ func handoffCase(c conf, st *stats) string {
 			st.Hangs["handoff"]++
 			bad = true
 		} else {
+			n0 := early
 			for _, t := range e.tasks {
 				if t.sub == "ok" && atomic.LoadInt64(&t.fin) == 0 {
 					early++
 					bad = true
 				}
+			}
+			if n := int(atomic.LoadInt32(&e.runAtDone)); n > 0 && early == n0 {
+				early += n
+				bad = true
 			}
 		}
 		if n := int(atomic.LoadInt32(&e.cstart)); n > 0 {
